@@ -12,12 +12,17 @@
 //!   construct <global> <argc>      JsObject::construct
 //!   meth <global> <method> <argc>  obj = global; obj.method fetched, then JsObject::call(method, this=obj, argc numbers)
 //!   jobs                           Context::run_jobs
+//!   moddef <name> <js>             Module::parse and register under specifier <name> in the context's MapModuleLoader
+//!   module <js>                    Module::parse + load_link_evaluate + run_jobs; completion from the promise state (P:pending = still pending)
 //!   depths                         no entry
 //! Output, one line per op:
 //!   <lineno> TAB <op> TAB <before> TAB <after> TAB <completion> TAB <probes> TAB <blocks>
 //!   before/after = frames,stack,pending,host_call_depth ;  completion = V | T:<class> | L:<limit> | E:<engine panic> | P:<rust panic> | -
 //!   probes = id:frames:stack:pending:hdepth;...   blocks = name:regs:params;...  (eval only, `-` otherwise; script block name is `<main>`)
-use boa_engine::{Context, JsError, JsResult, JsValue, NativeFunction, Script, Source, js_string};
+use boa_engine::builtins::promise::PromiseState;
+use boa_engine::module::MapModuleLoader;
+use boa_engine::{Context, JsError, JsResult, JsValue, Module, NativeFunction, Script, Source, js_string};
+use std::rc::Rc;
 use std::cell::RefCell;
 use std::io::{BufRead, Write};
 
@@ -82,8 +87,19 @@ fn error_class(e: &JsError, ctx: &mut Context) -> String {
     }
 }
 
-fn new_context(rec: usize, stack: usize, lp: u64) -> Context {
-    let mut ctx = Context::default();
+thread_local! {
+    static LOADERS: RefCell<Vec<(usize, Rc<MapModuleLoader>)>> = const { RefCell::new(Vec::new()) };
+    static CUR: std::cell::Cell<usize> = const { std::cell::Cell::new(0) };
+}
+
+fn loader_of(n: usize) -> Option<Rc<MapModuleLoader>> {
+    LOADERS.with(|l| l.borrow().iter().rev().find(|(k, _)| *k == n).map(|(_, m)| m.clone()))
+}
+
+fn new_context(n: usize, rec: usize, stack: usize, lp: u64) -> Context {
+    let map = Rc::new(MapModuleLoader::new());
+    LOADERS.with(|l| l.borrow_mut().push((n, map.clone())));
+    let mut ctx = Context::builder().module_loader(map).build().expect("context");
     ctx.register_global_builtin_callable(js_string!("probe"), 1, NativeFunction::from_fn_ptr(probe))
         .expect("register probe");
     set_limits(&mut ctx, rec, stack, lp);
@@ -178,6 +194,26 @@ fn run_op(ctx: &mut Context, op: &str, rest: &str) -> (String, String) {
             m.call(&o, &nums(argc), ctx)
         }
         "jobs" => ctx.run_jobs().map(|()| JsValue::undefined()),
+        "moddef" => {
+            let (name, text) = rest.split_once(' ').unwrap_or((rest, ""));
+            let src = bh::unescape_string(text);
+            let m = Module::parse(Source::from_bytes(src.as_bytes()), None, ctx)?;
+            if let Some(l) = loader_of(CUR.with(std::cell::Cell::get)) {
+                l.insert(name, m);
+            }
+            Ok(JsValue::undefined())
+        }
+        "module" => {
+            let src = bh::unescape_string(rest);
+            let m = Module::parse(Source::from_bytes(src.as_bytes()), None, ctx)?;
+            let p = m.load_link_evaluate(ctx);
+            ctx.run_jobs()?;
+            match p.state() {
+                PromiseState::Fulfilled(_) => Ok(JsValue::undefined()),
+                PromiseState::Rejected(v) => Err(JsError::from_opaque(v)),
+                PromiseState::Pending => Err(boa_engine::JsNativeError::eval().with_message("pending").into()),
+            }
+        }
         _ => Ok(JsValue::undefined()),
     })();
     let comp = match r {
@@ -205,12 +241,14 @@ fn main() {
                 }
                 let c = bh::guarded(|| {
                     new_context(
+                        n,
                         f.get(1).copied().unwrap_or(0),
                         f.get(2).copied().unwrap_or(0),
                         f.get(3).copied().unwrap_or(0) as u64,
                     )
                 });
                 cur = n;
+                CUR.with(|c| c.set(cur));
                 match c {
                     Ok(c) => {
                         let d = fmt_d(depths(&c));
@@ -223,6 +261,7 @@ fn main() {
             }
             "use" => {
                 cur = f.first().copied().unwrap_or(0);
+                CUR.with(|c| c.set(cur));
                 writeln!(out, "{lineno}\tuse\t-\t-\t-\t-\t-").unwrap();
                 continue;
             }
